@@ -268,6 +268,27 @@ func checkC19(c C19Case) error {
 				return fmt.Errorf("first/last/slice disagree on %s: [first,last,slice(0,1)|first,slice(n-1,1)|first] = %s, want %s", PrintE2(c.X), showJ(f), showJ(want))
 			}
 		}
+	case "lengthself":
+		// values whose unit of counting the statement does not fix ([]byte: bytes or characters):
+		// whatever the unit, length, the for loop, slice, first and last must agree on it
+		out, err := evalText("{{ x|length }}|{% for i in x %}.{% endfor %}|{{ x|slice(0)|length }}|{% for i in x %}{{ loop.length }};{% endfor %}", ctx)
+		if err != nil {
+			return err
+		}
+		parts := strings.Split(out, "|")
+		if len(parts) != 4 || parts[0] != strconv.Itoa(len(parts[1])) || parts[0] != parts[2] || (len(parts[1]) > 0 && !strings.HasPrefix(parts[3], parts[0]+";")) {
+			return fmt.Errorf("length / for / slice / loop.length disagree on %s: %s", PrintE2(c.X), q(out))
+		}
+		if parts[0] != "0" {
+			fl, err := evalText("{{ x|first }}|{% for i in x %}{% if loop.first %}{{ i }}{% endif %}{% endfor %}|{{ x|last }}|{% for i in x %}{% if loop.last %}{{ i }}{% endif %}{% endfor %}", ctx)
+			if err != nil {
+				return err
+			}
+			q4 := strings.Split(fl, "|")
+			if len(q4) != 4 || q4[0] != q4[1] || q4[2] != q4[3] {
+				return fmt.Errorf("first / last and the for loop see different elements of %s: first|loop-first|last|loop-last = %s", PrintE2(c.X), q(fl))
+			}
+		}
 	case "joinsplit":
 		orig, err := evalJSON("x", ctx)
 		if err != nil {
@@ -484,7 +505,7 @@ func c19Tricky(x *E) bool {
 	return false
 }
 
-const c19Rule = "per law (idempotence of upper/lower/trim/capitalize; reverse involution; sort = ordered permutation; length = for-iterations = what first/last/slice see; join/split round trip; list merge = concatenation, also for two merges of the same operand (slices with spare capacity); map merge = later wins + keys once; slice index rules) inputs of every supported type: strings (ASCII, multi-byte, special-casing letters, named string type), untyped lists, []int, []string, []float64, [3]int arrays, untyped and typed maps; slice arguments in [-(n+2), n+2] and omitted, written as literals and as nested filter chains; non-trivial = multi-byte string, typed slice/map, negative/out-of-range/omitted argument or empty input; distinct by (law, input, arguments)"
+const c19Rule = "per law (idempotence of upper/lower/trim/capitalize; reverse involution; sort = ordered permutation; length = for-iterations = what first/last/slice see (for []byte as mutual agreement, whatever the unit); join/split round trip; list merge = concatenation, also for two merges of the same operand (slices with spare capacity); map merge = later wins + keys once; slice index rules) inputs of every supported type: strings (ASCII, multi-byte, special-casing letters, named string type), untyped lists, []int, []string, []float64, [3]int arrays, untyped and typed maps; slice arguments in [-(n+2), n+2] and omitted, written as literals and as nested filter chains; non-trivial = multi-byte string, typed slice/map, negative/out-of-range/omitted argument or empty input; distinct by (law, input, arguments)"
 
 func TestC19Laws(t *testing.T) {
 	r := NewRec(t, "C19", c19Rule)
@@ -492,7 +513,7 @@ func TestC19Laws(t *testing.T) {
 	rapid.Check(t, func(rt *rapid.T) {
 		var c C19Case
 		nt := false
-		c.Law = rapid.SampledFrom([]string{"idempotent", "reverse", "sort", "length", "joinsplit", "merge", "mergemap", "slice"}).Draw(rt, "law")
+		c.Law = rapid.SampledFrom([]string{"idempotent", "reverse", "sort", "length", "joinsplit", "merge", "mergemap", "slice", "lengthself"}).Draw(rt, "law")
 		switch c.Law {
 		case "idempotent":
 			c.X = genStrDesc(rt)
@@ -505,6 +526,10 @@ func TestC19Laws(t *testing.T) {
 			} else {
 				c.X = genListDesc(rt, rapid.SampledFrom([]string{"int", "str"}).Draw(rt, "lk"))
 			}
+		case "lengthself":
+			c.X = ZT(genStrDesc(rt), "bytes")
+			c.X.M = "bytes"
+			nt = true
 		case "sort":
 			c.X = genListDesc(rt, rapid.SampledFrom([]string{"int", "str"}).Draw(rt, "lk"))
 		case "joinsplit":
@@ -710,7 +735,15 @@ var pow10 = []int64{1, 10, 100, 1000, 10000}
 
 // decRound returns the admissible results of rounding x to p decimals by method.
 func decRound(x *big.Rat, p int, method string) []*big.Rat {
-	scaled := new(big.Rat).Mul(x, new(big.Rat).SetInt64(pow10[p]))
+	// 10^p as a rational, also for negative p (rounding to tens, hundreds, ...)
+	scale := new(big.Rat).SetInt64(1)
+	for i := 0; i < p; i++ {
+		scale.Mul(scale, big.NewRat(10, 1))
+	}
+	for i := 0; i > p; i-- {
+		scale.Mul(scale, big.NewRat(1, 10))
+	}
+	scaled := new(big.Rat).Mul(x, scale)
 	floor := new(big.Int).Div(scaled.Num(), scaled.Denom()) // Div is Euclidean: floor for positive denominators
 	fl := new(big.Rat).SetInt(floor)
 	isInt := scaled.IsInt()
@@ -718,7 +751,7 @@ func decRound(x *big.Rat, p int, method string) []*big.Rat {
 	if !isInt {
 		ce.Add(fl, big.NewRat(1, 1))
 	}
-	unscale := func(r *big.Rat) *big.Rat { return new(big.Rat).Quo(r, new(big.Rat).SetInt64(pow10[p])) }
+	unscale := func(r *big.Rat) *big.Rat { return new(big.Rat).Quo(r, scale) }
 	switch method {
 	case "floor":
 		return []*big.Rat{unscale(fl)}
@@ -827,6 +860,10 @@ func checkC19Num(c C19NumCase) error {
 func ratStrings(rs []*big.Rat, p int) []string {
 	var out []string
 	for _, r := range rs {
+		if p < 0 {
+			out = append(out, r.FloatString(0))
+			continue
+		}
 		out = append(out, r.FloatString(p))
 	}
 	return out
@@ -856,12 +893,16 @@ func genNumeral(t *rapid.T) string {
 }
 
 func TestC19Numbers(t *testing.T) {
-	r := NewRec(t, "C19", "abs, round(p, common|ceil|floor) and number_format(p) on decimal numerals with <= 3 fractional digits and |x| <= 10^9 (literals and float64 context values), p in 0..3, compared with exact decimal arithmetic (math/big.Rat); on exact decimal ties either neighbour is accepted; grouping and decimals of number_format checked structurally; non-trivial = the numeral has a fractional part or needs grouping")
+	r := NewRec(t, "C19", "abs, round(p, common|ceil|floor) and number_format(p) on decimal numerals with <= 3 fractional digits and |x| <= 10^9 (literals and float64 context values), p in 0..3 (round also -3..-1), compared with exact decimal arithmetic (math/big.Rat); on exact decimal ties either neighbour is accepted; grouping and decimals of number_format checked structurally; non-trivial = the numeral has a fractional part or needs grouping")
 	defer r.Flush()
 	rapid.Check(t, func(rt *rapid.T) {
 		c := C19NumCase{Num: genNumeral(rt), Filter: rapid.SampledFrom([]string{"abs", "round", "round", "number_format"}).Draw(rt, "nf"), P: rapid.IntRange(0, 3).Draw(rt, "p"), AsVar: rapid.Bool().Draw(rt, "asvar")}
 		if c.Filter == "round" {
 			c.Method = rapid.SampledFrom([]string{"", "common", "ceil", "floor"}).Draw(rt, "method")
+			// negative precision rounds to tens, hundreds, thousands (whole numbers included)
+			if rapid.IntRange(0, 2).Draw(rt, "negp") == 0 {
+				c.P = -rapid.IntRange(1, 3).Draw(rt, "np")
+			}
 		}
 		nt := strings.Contains(c.Num, ".") || len(strings.TrimPrefix(c.Num, "-")) > 3
 		r.Case(fmt.Sprint(c), nt, c, "filter:"+c.Filter+c.Method)
